@@ -10,7 +10,7 @@ for d in sorted((ROOT / "seeded").iterdir()):
         continue
     m = json.loads((d / "meta.json").read_text())
     r = res.get(d.name, {})
-    det = ", ".join(p for p, v in sorted(r.items()) if v.get("detected")) or "—"
+    det = ", ".join(p + (" (thorough tier)" if v.get("tier") == "thorough" else "") for p, v in sorted(r.items()) if v.get("detected")) or "—"
     nfi = ", ".join(p for p, v in sorted(r.items()) if v.get("detected") and "no-failing-input-found" in v.get("first", ""))
     miss = ", ".join(p for p, v in sorted(r.items()) if not v.get("detected")) or "—"
     what = (m.get("what_it_breaks") or m.get("title") or "").replace("|", "/").replace("\n", " ")
